@@ -19,7 +19,7 @@ def run(ctx):
     r.not_decided = ["a single module whose start overhang is its own reverse complement (the property text does not settle the expected outcome)",
                      "equality of overhangs differing in case (C18)"]
     run_kernels(ctx, ["K0", "K15", "K14", "K10", "K1"], "C03")
-    k17_entry(ctx, "C03")
-    order_independence_rule(ctx, "C03.order-independence")
+    ctx.guard(k17_entry, ctx, "C03")
+    ctx.guard(order_independence_rule, ctx, "C03.order-independence")
     from ..rules_misc import collect_walk_effects, consistent_equality_rule
-    consistent_equality_rule(ctx, "C03.one-equality", collect_walk_effects(ctx))
+    ctx.guard(consistent_equality_rule, ctx, "C03.one-equality", collect_walk_effects(ctx))
